@@ -507,6 +507,28 @@ def run(ck):
                 except Exception as e:
                     if short(e) != "err-temp":
                         ck.fail("refused:list:other:%s" % tag, "component list refused for another reason: %s" % short(e), inp)
+    # ---- the same for lists of three and four components (the odd temperature first, in the middle, last), analytically defined and with the
+    # values handed over (`values=`) ---------------------------------------------------------------------------------------------------
+    for tag, cls in classes[:1]:
+        for Ts in ((77.0, 300.0, 300.0), (300.0, 77.0, 300.0), (300.0, 300.0, 77.0), (300.0, 77.0, 77.0, 300.0)):
+            for with_values in (False, True):
+                lst = []
+                for Tc in Ts:
+                    pc = KINDS["OverdampedBrownian"](10.0 + 5.0 * len(lst), rng, Tc); pc["cortime"] = 60.0 + 20.0 * len(lst)
+                    lst.append(pc)
+                inp = {"class": tag, "components": lst, "values_handed_over": with_values}
+                ck.case(("list-refusal", tag, Ts, with_values), nontrivial=True, cls=tag, types=1)
+                try:
+                    with energy_units("1/cm"):
+                        if with_values:
+                            vals_ = numpy.array(cls(ta, dict(lst[-1])).data).copy()
+                            cls(ta, [dict(c) for c in lst], values=vals_)
+                        else:
+                            cls(ta, [dict(c) for c in lst])
+                    ck.fail("temperature:not-refused:list:%s" % tag, "a component list naming two temperatures was accepted", inp, [c["T"] for c in lst])
+                except Exception as e:
+                    if short(e) != "err-temp":
+                        ck.fail("refused:list:other:%s" % tag, "component list refused for another reason: %s" % short(e), inp)
     # ---- one parameter dictionary reused (and changed) by the script between constructions, in every unit incl. internal ones -------
     for tag, cls in classes:
         for units in ("int", "1/cm", "eV"):
